@@ -74,6 +74,8 @@ func checkC16(w *World, r *Report) {
 	r.Rule("R16.5", "upstream attempts do not share mutable TLS configuration", 3)
 	r.Rule("R16.6", "a closed carrier is seen as closed: the wrappers' Close sets the flag on every path (the reuse test consults Closed())", 2)
 	ruleSafeCloseSetsFlag(w, r, "R16.6")
+	r.Rule("R16.9", "the direct forward address is dialled for every stream network it can name", 1)
+	c16DirectDialCoversStreamNetworks(w, r)
 	r.Rule("R16.8", "settling on an upstream after a failover is reported as success (no stale error of an earlier upstream)", 1)
 	r.Rule("R16.7", "an upstream counts as meeting the security requirement only over a TLS-built carrier or a TLS scheme (else the first, clear-text upstream is settled on and no later one is tried)", 5)
 	if sites7, _ := findConnectSites(w); len(sites7) > 0 {
@@ -329,7 +331,7 @@ func ruleSharedSession(w *World, r *Report, rule string, uc, openM *types.Func) 
 	var mutexF *types.Var
 	st := ups.Underlying().(*types.Struct)
 	for i := 0; i < st.NumFields(); i++ {
-		if n, ok := st.Field(i).Type().(*types.Named); ok && n.Obj().Pkg() != nil && n.Obj().Pkg().Path() == "sync" && n.Obj().Name() == "Mutex" {
+		if n, ok := st.Field(i).Type().(*types.Named); ok && n.Obj().Pkg() != nil && n.Obj().Pkg().Path() == "sync" && (n.Obj().Name() == "Mutex" || n.Obj().Name() == "RWMutex") {
 			mutexF = st.Field(i)
 		}
 	}
